@@ -91,3 +91,17 @@ Example C17_defaults_accepted :
                    phases := [{| ph_infl := 229787234042553191; ph_coef := PREC / 2 |};
                               {| ph_infl := 286259541984732824; ph_coef := PREC / 2 |}] |}) = true.
 Proof. vm_compute. split; reflexivity. Qed.
+
+(* liveness of minting stated on the generated code alone: under every parameter set the generated Params.Validate accepts, the generated
+   BeginBlocker maps a well-formed minter to a well-formed minter and mints a non-negative amount (and this is the run of the model that
+   does not panic), at every height and supply *)
+Theorem C17_mint_live_generated : forall P m supply h,
+  K_Params_Validate (gparams_of P) = true -> minter_ok m -> 1 <= h ->
+  exists m' minted, K_mint_BeginBlocker (mint_state P m supply 0 h) = mint_state P m' (supply + minted) minted h /\
+                    minter_ok m' /\ 0 <= minted /\ begin_block P m supply h = BBok m' minted.
+Proof.
+  intros P m supply h HV Hm Hh. rewrite gen_mint_Validate in HV.
+  destruct (begin_block_live P m supply h HV Hm Hh) as (m' & minted & E & Hok & Hnn).
+  exists m', minted. split; [apply gen_BeginBlocker; exact E|]. split; [exact Hok|]. split; [exact Hnn|exact E].
+Qed.
+Print Assumptions C17_mint_live_generated.
